@@ -289,7 +289,7 @@ func (s *Sim) create(r int) string {
 	}
 	doc, err := client.NewDocFromMap(m, s.col(r).Definition())
 	core.Must(err)
-	if err := s.col(r).Create(s.ctx, doc); err != nil {
+	if err := s.col(r).Create(s.ctx, doc, s.createOpts()...); err != nil {
 		if s.P.Config == "uniq" && isUniqErr(err) {
 			s.logf("create on r%d rejected by unique index", r)
 			return ""
@@ -304,6 +304,17 @@ func (s *Sim) create(r int) string {
 	s.logf("create %s on r%d %s", short(id), r, core.Canon(m))
 	s.afterStep(r, id, "create")
 	return id
+}
+
+// createOpts: in the "encrypted" configuration every document is created with document-level
+// encryption (single writer node: the block and head invariants of C04 are judged on the node that
+// holds the keys; what receivers with and without keys see is C11's subject).
+func (s *Sim) createOpts() []client.DocCreateOption {
+	if s.P.Config == "encrypted" {
+		s.rec.Count("encrypted_documents_created", 1)
+		return []client.DocCreateOption{client.CreateDocEncrypted(true)}
+	}
+	return nil
 }
 
 func isUniqErr(err error) bool {
@@ -627,6 +638,18 @@ func (s *Sim) anchor() {
 		s.deliver(1, c2a, "")
 		s.deliver(2, c1, "")
 		s.deliver(2, s.headOf(id), "")
+	case "anchor-single-writer":
+		// one node writes a history of counter and register updates (used with document encryption):
+		// every stored field commit must have height = 1 + the height of its parent
+		id := s.createWith(0, map[string]any{"name": "anchor5", "n": 1, "p": 1, "nf": 0.5, "s": "a"})
+		g := s.headOf(id)
+		s.updateWith(0, id, map[string]any{"n": 2})
+		s.updateWith(0, id, map[string]any{"p": 2, "s": "b"})
+		mid := s.headOf(id)
+		s.updateWith(0, id, map[string]any{"nf": 1.25, "n": -1})
+		s.deliver(0, g, "")
+		s.deliver(0, mid, "")
+		s.updateWith(0, id, map[string]any{"n": 3, "i": 1})
 	case "anchor-null-tie":
 		// two replicas write the same field at the same height, one of them null.
 		id := s.createWith(0, map[string]any{"name": "anchor2", "s": "a", "i": 1})
@@ -695,7 +718,7 @@ func (s *Sim) anchor() {
 func (s *Sim) createWith(r int, m map[string]any) string {
 	doc, err := client.NewDocFromMap(m, s.col(r).Definition())
 	core.Must(err)
-	core.Must(s.col(r).Create(s.ctx, doc))
+	core.Must(s.col(r).Create(s.ctx, doc, s.createOpts()...))
 	id := doc.ID().String()
 	s.docIDs = append(s.docIDs, id)
 	s.recordLocal(r, id, m)
